@@ -16,13 +16,13 @@ fn k_c14_parts(depth: u8, delta: u8) {
   p_c14_parts(depth, delta, hash, k);
 }
 
-fn k_c14_external(depth: u8, delta: u8) {
+fn k_c14_external(depth: u8, delta: u8, sorted: bool) {
   let hash: u64 = kani::any();
   let c: u64 = kani::any();
   let k: u32 = kani::any();
   kani::assume(hash < spec_n_hash(depth) && c < spec_n_hash(depth + delta));
   kani::cover!((c >> (2 * (depth + delta) as u32)) != (hash >> (2 * depth as u32)) && c14_outside_and_adjacent(depth, delta, hash, c), "adjacent outside cell in another base cell");
-  p_c14_external(depth, delta, hash, c, k);
+  p_c14_external(depth, delta, hash, c, k, sorted);
 }
 
 fn k_c14_struct(depth: u8, delta: u8) {
